@@ -21,6 +21,11 @@ pub const YP_LOOKUP_BEFORE_WLOCK: u32 = 3;
 /// forget / batch_forget: before taking the inode map write lock.
 pub const YP_FORGET_BEFORE_WLOCK: u32 = 4;
 
+/// forget_one: between the refcount load and the compare-exchange.  The inode map write lock is
+/// held here: a scheduler must only run threads that are at `YP_LOOKUP_AFTER_HIT` or
+/// `YP_LOOKUP_BEFORE_CAS` (lock-free steps) until the forgetting thread has moved on.
+pub const YP_FORGET_BEFORE_CAS: u32 = 5;
+
 /// Install (or remove, with `None`) the scheduler callback.
 pub fn install_scheduler(f: Option<Arc<YieldFn>>) {
     *SCHEDULER.write().unwrap() = f;
